@@ -70,3 +70,22 @@ CHECKS["C13"] = dict(
     floors=dict(any={"TestC13Migrate.records": 500, "TestC13Migrate.corrupt_stores": 3, "TestC13Migrate.during_attempts": 100, "TestC13Migrate.followups": 50}),
     assumptions=["internal/cborx encodes the version-2 record layout (field names of ChannelStateV2, tuple-encoded stages) correctly"],
 )
+
+CHECKS["C03"] = dict(
+    level="exploration",
+    rule=("C03Init: role-consistent initiator histories (8 variants by index: both completion signals in both orders, with/without a preceding paused Complete, late "
+          "acceptance, duplicated signals, a single signal only, never-accepted local finish) with PRNG bookkeeping noise between all steps; trace predicates over "
+          "the snapshot stream: P1 Completing only after both signals, P2 both signals => Completed at quiescence, P3 bookkeeping never changes status (except the "
+          "named release from Finalizing), P4 lifecycle never changes counters/pause flags/vouchers/limits. C03Resp: responder histories with and without finalization "
+          "(stays Finalizing and reports paused under noise until ResumeResponder, then completes). C03Step: single-step product over injected version-3 records: "
+          "15 statuses x 4 pause-flag settings x 4 roles x all 28 event-sending operations, P3/P4 on every applied step. distinct = distinct set of observed "
+          "(event, status->status) facts."),
+    parts=[
+        dict(test="TestC03Init", quick=320, thorough=24000, per_shard=40),
+        dict(test="TestC03Resp", quick=96, thorough=6000, per_shard=24),
+        dict(test="TestC03Step", quick=112, thorough=1120, per_shard=8),
+    ],
+    floors=dict(any={"TestC03Init.both_signals_cases": 100, "TestC03Init.never_accepted_cases": 10, "TestC03Resp.finalizing_cases": 20,
+                     "TestC03Resp.release_from_finalizing": 20, "TestC03Step.steps_applied": 4000}),
+    assumptions=["event classes (lifecycle/bookkeeping/ending) are read off the property statement, see chk/hist_test.go eventClass"],
+)
